@@ -235,8 +235,36 @@ func (rn *Runner) markInflight(w int, s Stream, c any, caseNo int) string {
 	return p
 }
 
+// loadFactor: how oversubscribed the machine is right now (1-minute load average per CPU, at
+// least 1, at most 8). Time limits that exist to recognise a HANG are stretched by it, so that
+// a slow machine is not mistaken for a hanging implementation.
+func loadFactor() float64 {
+	b, err := os.ReadFile("/proc/loadavg")
+	if err != nil {
+		return 1
+	}
+	var l1 float64
+	if _, err := fmt.Sscan(string(b), &l1); err != nil {
+		return 1
+	}
+	f := l1 / float64(runtime.NumCPU())
+	if f < 1 {
+		return 1
+	}
+	if f > 8 {
+		return 8
+	}
+	return f
+}
+
 func (rn *Runner) runOne(d *Driver, s Stream, c any) caseResult {
-	lines, class, msg := ExecSafe(s, c, rn.Timeout)
+	limit := time.Duration(float64(rn.Timeout) * loadFactor())
+	lines, class, msg := ExecSafe(s, c, limit)
+	if class == "HANG" {
+		// one more try with four times the limit: only a case that still does not return is
+		// reported as a hang (the first attempt keeps running in its goroutine meanwhile)
+		lines, class, msg = ExecSafe(s, c, 4*limit)
+	}
 	if class != "" {
 		return caseResult{class: class, summary: msg}
 	}
